@@ -289,6 +289,12 @@ func (w *FaultWriter) Write(p []byte) (int, error) {
 	return len(p), nil
 }
 
+// FaultStringWriter also implements io.StringWriter, the method io.WriteString
+// prefers: a write that reaches the caller's writer that way must fail the same way.
+type FaultStringWriter struct{ *FaultWriter }
+
+func (w FaultStringWriter) WriteString(s string) (int, error) { return w.Write([]byte(s)) }
+
 // carries reports whether err carries the injected failure.
 func carries(err error) bool {
 	for i := 0; err != nil && i < 20; i++ {
